@@ -9,7 +9,7 @@ TRACE = ('Pkt_Trace.tla', 'Pkt_Trace.cfg')
 CHECKER = 'java -cp tla2tools.jar tlc2.TLC -workers 1 -config Pkt_Trace.cfg Pkt_Trace.tla (TRACE=<ndjson>); design level: PktDec_MC.tla with PktDec_MC_<bs0>_<bs1>_<hs>.cfg'
 SAFETY = {'NoCrash', 'CallsTerminate', 'LibraryNeverExits', 'UnknownEvent'}
 C11_RULES = {'Locality', 'LocalityCount', 'SamplesPerPacket'} | SAFETY
-C02_RULES = {'HeaderInReturnsDocumentedCode', 'SynthesisInitReturnsDocumentedCode', 'SynthesisReturnsDocumentedCode', 'BlockinReturnsDocumentedCode', 'ReadReturnsDocumentedCode',
+C02_RULES = {'RefusedInitStaysRefused', 'HeaderInReturnsDocumentedCode', 'SynthesisInitReturnsDocumentedCode', 'SynthesisReturnsDocumentedCode', 'BlockinReturnsDocumentedCode', 'ReadReturnsDocumentedCode',
              'HalfRateReturnsDocumentedCode', 'BufferInsideRing', 'PendingNeverNegative', 'LapOutNonNegative', 'BlockinRefusedUntilRead', 'ReadRefusesMoreThanPending',
              'RestartSucceeds', 'InfoClearEmptiesInfo', 'NonHeaderRefused', 'InitNeedsAllHeaders'} | SAFETY
 C01_RULES = {'SamplesPerPacket', 'ValidHeaderAccepted', 'ValidPacketDecodes', 'InitSucceedsAfterHeaders', 'PcmOutReportsPending', 'FreshDecoderHoldsNothing',
